@@ -27,6 +27,14 @@ TEMPLATES = {
     "ifs": {"A1": 1, "A2": 5, "B1": "=IF(A1,A2,0-A2)", "B2": '=A1&""', "C1": "=B1+1", "C2": "=ISLOGICAL(A1)"},
     "name": {"A1": 2, "A2": 3, "B1": "=total*2", "C1": "=B1+A2", "__names__": {"total": "Sheet!$A$1"}},
     "cseiferr": {"A1": 1, "A2": 2, "A3": 3, "C1": "=IFERROR(A1:A3,9)", "E1": ("cse", "E1:E3", "=A1:A3*C1")},
+    "unbounded": {"A1": 1, "A2": 2, "A3": 3, "B1": "=SUM(A:A)", "C1": "=B1+A1", "D1": "=MAX(2:2)+C1"},
+    # a table at the same position on two sheets, column c is the this-row formula (numeric inputs first: the
+    # header texts are not substituted)
+    "tables": {"A2": 1, "B2": 2, "A3": 3, "B3": 4, "C2": "=[@a]+[@b]", "C3": "=[@a]-[@b]", "A1": "a", "B1": "b", "C1": "c",
+               "D2": "=C2+C3",
+               "__other__": {"A1": "a", "B1": "b", "C1": "c", "A2": 10, "B2": 20, "C2": "=[@a]+[@b]", "A3": 30, "B3": 40,
+                             "C3": "=[@a]-[@b]"},
+               "__tables__": {"Sheet": ("Costs", "A1:C3", "abc"), "Other": ("Sales", "A1:C3", "abc")}},
     "twosheet": {"A1": 1, "A2": 2, "B1": "=Other!A1+A1", "C1": "=SUM(Other!A1:A2)+B1",
                  "__other__": {"A1": 10, "A2": "=Sheet!A2*3", "A3": 7, "A4": "=A3+A1"}},
 }
@@ -89,6 +97,11 @@ def make_workbook(tname, values_only=None):
                 w[c] = values_only.get(addr(c, sname))
             else:
                 w[c] = v
+    for sname, (tab, ref, cols) in t.get("__tables__", {}).items():
+        from openpyxl.worksheet.table import Table, TableColumn
+        table = Table(displayName=tab, ref=ref)
+        table.tableColumns = [TableColumn(id=i, name=n) for i, n in enumerate(cols, start=1)]
+        wb[sname].add_table(table)
     for name, dest in t.get("__names__", {}).items():
         from openpyxl.workbook.defined_name import DefinedName
         dn = DefinedName(name, attr_text=dest)
